@@ -82,53 +82,99 @@ func diFacts(repo string) []map[string]interface{} {
 				gof = strings.TrimPrefix(gof, "md.")
 				fields = append(fields, map[string]interface{}{"kw": m[1], "verb": m[2], "wrap": wrap, "gofield": gof, "gotype": ftypes[kind][gof], "cond": cond})
 			}
-			var sprintfIn func(n ast.Node, cond string)
-			sprintfIn = func(n ast.Node, cond string) {
-				ast.Inspect(n, func(x ast.Node) bool {
-					if c, ok := x.(*ast.CallExpr); ok {
-						if se, ok := c.Fun.(*ast.SelectorExpr); ok && se.Sel.Name == "Sprintf" {
-							field(c, cond)
-							return false
-						}
-					}
-					return true
-				})
+			// fields are printed in the order of the `fields = append(fields, …)` statements; a `field := fmt.Sprintf(…)` only prepares one
+			isSprintf := func(e ast.Expr) (*ast.CallExpr, bool) {
+				c, ok := e.(*ast.CallExpr)
+				if !ok {
+					return nil, false
+				}
+				se, ok := c.Fun.(*ast.SelectorExpr)
+				return c, ok && se.Sel.Name == "Sprintf"
 			}
-			for _, s := range fd.Body.List {
-				switch s := s.(type) {
-				case *ast.IfStmt:
-					c := src(fset, s.Cond)
-					if c == "md.Distinct" {
-						continue
-					}
-					shape := "other:" + c
-					switch {
-					case regexp.MustCompile(`^md\.[A-Za-z]+ != nil$`).MatchString(c):
-						shape = "nonnil"
-					case regexp.MustCompile(`^md\.[A-Za-z]+ != 0$`).MatchString(c):
-						shape = "nonzero"
-					case regexp.MustCompile(`^md\.[A-Za-z]+$`).MatchString(c):
-						shape = "true"
-					case regexp.MustCompile(`^!md\.[A-Za-z]+$`).MatchString(c):
-						shape = "false"
-					case regexp.MustCompile(`^len\(md\.[A-Za-z]+\) > 0$`).MatchString(c):
-						shape = "nonempty"
-					}
-					if s.Else != nil {
-						// (DIEnumerator prints `value:` in both branches, as unsigned or signed)
-						shape = "always"
-						n0 := len(fields)
-						sprintfIn(s.Body, shape)
-						if len(fields) > n0+1 {
-							fields = fields[:n0+1]
+			type pend struct {
+				call *ast.CallExpr
+			}
+			var walk func(list []ast.Stmt, cond string, scopes []map[string]*pend)
+			walk = func(list []ast.Stmt, cond string, scopes []map[string]*pend) {
+				scope := map[string]*pend{}
+				scopes = append(scopes, scope)
+				lookup := func(name string) *pend {
+					for i := len(scopes) - 1; i >= 0; i-- {
+						if p, ok := scopes[i][name]; ok {
+							return p
 						}
-						continue
 					}
-					sprintfIn(s.Body, shape)
-				case *ast.AssignStmt, *ast.ExprStmt, *ast.DeclStmt:
-					sprintfIn(s, "always")
+					return nil
+				}
+				for _, st := range list {
+					switch s := st.(type) {
+					case *ast.AssignStmt:
+						if len(s.Lhs) == 1 && len(s.Rhs) == 1 {
+							lhs, _ := s.Lhs[0].(*ast.Ident)
+							if c, ok := isSprintf(s.Rhs[0]); ok && lhs != nil {
+								if s.Tok == token.DEFINE {
+									scope[lhs.Name] = &pend{c}
+								} else if p := lookup(lhs.Name); p != nil {
+									p.call = c
+								} else {
+									scope[lhs.Name] = &pend{c}
+								}
+								continue
+							}
+							// fields = append(fields, X)
+							if c, ok := s.Rhs[0].(*ast.CallExpr); ok && lhs != nil && lhs.Name == "fields" {
+								if id, ok := c.Fun.(*ast.Ident); ok && id.Name == "append" && len(c.Args) == 2 {
+									if x, ok := c.Args[1].(*ast.Ident); ok {
+										if p := lookup(x.Name); p != nil && p.call != nil {
+											field(p.call, cond)
+										} else {
+											regular = false
+										}
+									} else if sc, ok := isSprintf(c.Args[1]); ok {
+										field(sc, cond)
+									} else {
+										regular = false
+									}
+								}
+							}
+						}
+					case *ast.DeclStmt:
+						// `var fields []string`
+					case *ast.IfStmt:
+						c := src(fset, s.Cond)
+						if c == "md.Distinct" {
+							continue
+						}
+						shape := "other:" + c
+						switch {
+						case regexp.MustCompile(`^md\.[A-Za-z]+ != nil$`).MatchString(c):
+							shape = "nonnil"
+						case regexp.MustCompile(`^md\.[A-Za-z]+ != 0$`).MatchString(c):
+							shape = "nonzero"
+						case regexp.MustCompile(`^md\.[A-Za-z]+$`).MatchString(c):
+							shape = "true"
+						case regexp.MustCompile(`^!md\.[A-Za-z]+$`).MatchString(c):
+							shape = "false"
+						case regexp.MustCompile(`^len\(md\.[A-Za-z]+\) > 0$`).MatchString(c):
+							shape = "nonempty"
+						}
+						if cond != "always" {
+							regular = false // (nested conditions are not modelled)
+						}
+						if s.Else != nil {
+							// (DIEnumerator prints `value:` in both branches, as unsigned or signed: one field, always printed)
+							n0 := len(fields)
+							walk(s.Body.List, "always", scopes)
+							if len(fields) > n0+1 {
+								fields = fields[:n0+1]
+							}
+							continue
+						}
+						walk(s.Body.List, shape, scopes)
+					}
 				}
 			}
+			walk(fd.Body.List, "always", nil)
 			// the translation
 			var assigned []string
 			defaults := map[string]string{}
